@@ -206,4 +206,834 @@ theorem step_cPost {p : Params} {s s' : State} {j : Nat} (h : step p s (.cPost j
     · simp at h
   · simp at h
 
+/-! ### the master invariant -/
+def wPre : Pc → Nat | .waited => 1 | .inSlot => 1 | _ => 0
+def wDone : Pc → Nat | .done => 1 | _ => 0
+def pPre (x : Prod) : Nat := wPre x.pc
+def pDone (x : Prod) : Nat := wDone x.pc
+def pK (x : Prod) : Nat := x.next + wDone x.pc
+def cPre (x : Cons) : Nat := wPre x.pc
+def cDone (x : Cons) : Nat := wDone x.pc
+def cK (x : Cons) : Nat := x.taken + wDone x.pc
+
+structure Inv (p : Params) (s : State) : Prop where
+  lenP : s.prods.length = p.items.length
+  lenC : s.cons.length = p.quotas.length
+  lenS : s.slots.length = p.cap
+  t1 : s.empty + lsum pPre s.prods + lsum pDone s.prods + s.used + lsum cPre s.cons + lsum cDone s.cons = p.cap
+  t2 : s.writes.length = s.reads.length + lsum pDone s.prods + s.used + lsum cPre s.cons
+  wK : s.writes.length = lsum pK s.prods
+  rK : s.reads.length = lsum cK s.cons
+  mP : ∀ (i : Nat) pr, s.prods[i]? = some pr → (pr.pc = .inSlot ↔ s.pLock = some i)
+  mPl : ∀ i, s.pLock = some i → i < s.prods.length
+  mC : ∀ (j : Nat) c, s.cons[j]? = some c → (c.pc = .inSlot ↔ s.cLock = some j)
+  mCl : ∀ j, s.cLock = some j → j < s.cons.length
+  pa : s.produceAt = s.writes.length % p.cap
+  ca : s.consumeAt = s.reads.length % p.cap
+  live : ∀ m, s.reads.length ≤ m → m < s.writes.length → s.slots[m % p.cap]? = some s.writes[m]?
+  dead : ∀ m, s.writes.length ≤ m → m < s.reads.length + p.cap → s.slots[m % p.cap]? = some none
+  fifo : s.reads <+: s.writes
+  bP : ∀ (i : Nat) pr, s.prods[i]? = some pr →
+    pr.next ≤ (p.items.getD i []).length ∧ (pr.pc ≠ .idle → pr.next < (p.items.getD i []).length)
+  bC : ∀ (j : Nat) c, s.cons[j]? = some c → c.taken ≤ p.quotas.getD j 0 ∧ (c.pc ≠ .idle → c.taken < p.quotas.getD j 0)
+  nb : s.bad = false
+
+theorem inv_init (p : Params) : Inv p (init p) := by
+  have z1 : ∀ (l : List (List Item)) (f : Prod → Nat), f ⟨.idle, 0⟩ = 0 → lsum f (l.map (fun _ => (⟨.idle, 0⟩ : Prod))) = 0 := by
+    intro l f hf; induction l with
+    | nil => rfl
+    | cons a l ih => simp [ih, hf]
+  have z2 : ∀ (l : List Nat) (f : Cons → Nat), f ⟨.idle, 0, []⟩ = 0 → lsum f (l.map (fun _ => (⟨.idle, 0, []⟩ : Cons))) = 0 := by
+    intro l f hf; induction l with
+    | nil => rfl
+    | cons a l ih => simp [ih, hf]
+  constructor <;> simp [init]
+  · rw [z1 _ _ rfl, z1 _ _ rfl, z2 _ _ rfl, z2 _ _ rfl]; simp
+  · rw [z1 _ _ rfl, z2 _ _ rfl]
+  · rw [z1 _ _ rfl]
+  · rw [z2 _ _ rfl]
+  · intro m hm
+    rw [Nat.mod_eq_of_lt hm]; simp [hm]
+
+theorem inv_pWait {p : Params} {s s' : State} {i : Nat} (hI : Inv p s)
+    (h : step p s (.pWait i) = some s') : Inv p s' := by
+  obtain ⟨pr, its, h1, h2, hpc, hn, he, rfl⟩ := step_pWait h
+  have e1 := lsum_set pPre _ _ _ { pr with pc := .waited } h1
+  have e2 := lsum_set pDone _ _ _ { pr with pc := .waited } h1
+  have e3 := lsum_set pK _ _ _ { pr with pc := .waited } h1
+  simp [pPre, pDone, pK, wPre, wDone, hpc] at e1 e2 e3
+  constructor <;> dsimp only
+  · simpa using hI.lenP
+  · exact hI.lenC
+  · exact hI.lenS
+  · have := hI.t1; omega
+  · have := hI.t2; omega
+  · have := hI.wK; omega
+  · exact hI.rK
+  · intro k x hk
+    rcases getElem?_set_cases hk with ⟨rfl, rfl⟩ | ⟨hne, hk'⟩
+    · have := hI.mP _ _ h1; simp [hpc] at this ⊢; exact this
+    · exact hI.mP _ _ hk'
+  · simpa using hI.mPl
+  · exact hI.mC
+  · exact hI.mCl
+  · exact hI.pa
+  · exact hI.ca
+  · exact hI.live
+  · exact hI.dead
+  · exact hI.fifo
+  · intro k x hk
+    rcases getElem?_set_cases hk with ⟨rfl, rfl⟩ | ⟨hne, hk'⟩
+    · have := hI.bP _ _ h1; simp [h2] at this ⊢; omega
+    · exact hI.bP _ _ hk'
+  · exact hI.bC
+  · exact hI.nb
+
+
+theorem inv_pEnter {p : Params} {s s' : State} {i : Nat} (hI : Inv p s)
+    (h : step p s (.pEnter i) = some s') : Inv p s' := by
+  obtain ⟨pr, h1, hpc, hl, rfl⟩ := step_pEnter h
+  have e1 := lsum_set pPre _ _ _ { pr with pc := .inSlot } h1
+  have e2 := lsum_set pDone _ _ _ { pr with pc := .inSlot } h1
+  have e3 := lsum_set pK _ _ _ { pr with pc := .inSlot } h1
+  have e4 := le_lsum pPre _ _ _ h1
+  simp [pPre, pDone, pK, wPre, wDone, hpc] at e1 e2 e3 e4
+  have hRW := hI.fifo.length_le
+  have ht1 := hI.t1
+  have ht2 := hI.t2
+  constructor <;> dsimp only
+  · simpa using hI.lenP
+  · exact hI.lenC
+  · exact hI.lenS
+  · omega
+  · omega
+  · have := hI.wK; omega
+  · exact hI.rK
+  · intro k x hk
+    rcases getElem?_set_cases hk with ⟨rfl, rfl⟩ | ⟨hne, hk'⟩
+    · simp
+    · have := hI.mP _ _ hk'
+      rw [hl] at this
+      simp at this
+      simp [this]; omega
+  · intro k hk
+    simp at hk; subst hk
+    have := (List.getElem?_eq_some_iff.mp h1).1
+    simpa using this
+  · exact hI.mC
+  · exact hI.mCl
+  · exact hI.pa
+  · exact hI.ca
+  · exact hI.live
+  · exact hI.dead
+  · exact hI.fifo
+  · intro k x hk
+    rcases getElem?_set_cases hk with ⟨rfl, rfl⟩ | ⟨hne, hk'⟩
+    · have := hI.bP _ _ h1; simp [hpc] at this ⊢; omega
+    · exact hI.bP _ _ hk'
+  · exact hI.bC
+  · have hd := hI.dead s.writes.length (Nat.le_refl _) (by omega)
+    rw [← hI.pa] at hd
+    have hb := hI.nb
+    simp only [hb, Bool.false_or, Bool.or_eq_false_iff, decide_eq_false_iff_not]
+    refine ⟨by simp [hd], ?_⟩
+    rintro ⟨hs, hcp⟩
+    obtain ⟨j, hj⟩ := Option.isSome_iff_exists.mp hs
+    have hjl := hI.mCl j hj
+    have hcj : s.cons[j]? = some s.cons[j] := List.getElem?_eq_getElem hjl
+    have hin := (hI.mC j _ hcj).mpr hj
+    have e5 := le_lsum cPre _ _ _ hcj
+    simp [cPre, wPre, hin] at e5
+    rw [hI.pa, hI.ca] at hcp
+    exact mod_ne_of_lt _ _ _ (by omega) (by omega) hcp
+
+
+theorem inv_pLeave {p : Params} {s s' : State} {i : Nat} (hc : 1 ≤ p.cap) (hI : Inv p s)
+    (h : step p s (.pLeave i) = some s') : Inv p s' := by
+  obtain ⟨pr, its, h1, h2, hpc, hl, rfl⟩ := step_pLeave h
+  have e1 := lsum_set pPre _ _ _ { pr with pc := .done } h1
+  have e2 := lsum_set pDone _ _ _ { pr with pc := .done } h1
+  have e3 := lsum_set pK _ _ _ { pr with pc := .done } h1
+  have e4 := le_lsum pPre _ _ _ h1
+  simp [pPre, pDone, pK, wPre, wDone, hpc] at e1 e2 e3 e4
+  have hRW := hI.fifo.length_le
+  have ht1 := hI.t1
+  have ht2 := hI.t2
+  have hplt : s.writes.length % p.cap < s.slots.length := by rw [hI.lenS]; exact Nat.mod_lt _ (by omega)
+  constructor <;> dsimp only
+  · simpa using hI.lenP
+  · exact hI.lenC
+  · simpa using hI.lenS
+  · omega
+  · simp; omega
+  · have := hI.wK; simp; omega
+  · exact hI.rK
+  · intro k x hk
+    rcases getElem?_set_cases hk with ⟨rfl, rfl⟩ | ⟨hne, hk'⟩
+    · simp
+    · have := hI.mP _ _ hk'
+      rw [hl] at this
+      simp at this
+      simp [this]; omega
+  · intro k hk
+    simp at hk
+  · exact hI.mC
+  · exact hI.mCl
+  · rw [hI.pa, succ_mod_wrap _ _ hc]; simp
+  · exact hI.ca
+  · intro m hm1 hm2
+    simp only [List.length_append, List.length_singleton] at hm2
+    rw [hI.pa]
+    by_cases hmw : m = s.writes.length
+    · subst hmw
+      rw [List.getElem?_set_self hplt]
+      simp
+    · rw [List.getElem?_set_ne (mod_ne_of_lt _ _ _ (by omega) (by omega)).symm]
+      rw [hI.live m hm1 (by omega)]
+      rw [List.getElem?_append_left (by omega)]
+  · intro m hm1 hm2
+    simp only [List.length_append, List.length_singleton] at hm1
+    rw [hI.pa]
+    rw [List.getElem?_set_ne (mod_ne_of_lt _ _ _ (by omega) (by omega))]
+    exact hI.dead m (by omega) hm2
+  · exact hI.fifo.trans (List.prefix_append _ _)
+  · intro k x hk
+    rcases getElem?_set_cases hk with ⟨rfl, rfl⟩ | ⟨hne, hk'⟩
+    · have := hI.bP _ _ h1; simp [hpc] at this ⊢; omega
+    · exact hI.bP _ _ hk'
+  · exact hI.bC
+  · exact hI.nb
+
+
+theorem inv_pPost {p : Params} {s s' : State} {i : Nat} (hI : Inv p s)
+    (h : step p s (.pPost i) = some s') : Inv p s' := by
+  obtain ⟨pr, h1, hpc, rfl⟩ := step_pPost h
+  have e1 := lsum_set pPre _ _ _ { pc := .idle, next := pr.next + 1 } h1
+  have e2 := lsum_set pDone _ _ _ { pc := .idle, next := pr.next + 1 } h1
+  have e3 := lsum_set pK _ _ _ { pc := .idle, next := pr.next + 1 } h1
+  simp [pPre, pDone, pK, wPre, wDone, hpc] at e1 e2 e3
+  have ht1 := hI.t1
+  have ht2 := hI.t2
+  constructor <;> dsimp only
+  · simpa using hI.lenP
+  · exact hI.lenC
+  · exact hI.lenS
+  · omega
+  · omega
+  · have := hI.wK; omega
+  · exact hI.rK
+  · intro k x hk
+    rcases getElem?_set_cases hk with ⟨rfl, rfl⟩ | ⟨hne, hk'⟩
+    · have := hI.mP _ _ h1; simp [hpc] at this ⊢; exact this
+    · exact hI.mP _ _ hk'
+  · simpa using hI.mPl
+  · exact hI.mC
+  · exact hI.mCl
+  · exact hI.pa
+  · exact hI.ca
+  · exact hI.live
+  · exact hI.dead
+  · exact hI.fifo
+  · intro k x hk
+    rcases getElem?_set_cases hk with ⟨rfl, rfl⟩ | ⟨hne, hk'⟩
+    · have := hI.bP _ _ h1; simp [hpc] at this ⊢; omega
+    · exact hI.bP _ _ hk'
+  · exact hI.bC
+  · exact hI.nb
+
+theorem inv_cWait {p : Params} {s s' : State} {j : Nat} (hI : Inv p s)
+    (h : step p s (.cWait j) = some s') : Inv p s' := by
+  obtain ⟨c, q, h1, h2, hpc, hn, he, rfl⟩ := step_cWait h
+  have e1 := lsum_set cPre _ _ _ { c with pc := .waited } h1
+  have e2 := lsum_set cDone _ _ _ { c with pc := .waited } h1
+  have e3 := lsum_set cK _ _ _ { c with pc := .waited } h1
+  simp [cPre, cDone, cK, wPre, wDone, hpc] at e1 e2 e3
+  have ht1 := hI.t1
+  have ht2 := hI.t2
+  constructor <;> dsimp only
+  · exact hI.lenP
+  · simpa using hI.lenC
+  · exact hI.lenS
+  · omega
+  · omega
+  · exact hI.wK
+  · have := hI.rK; omega
+  · exact hI.mP
+  · exact hI.mPl
+  · intro k x hk
+    rcases getElem?_set_cases hk with ⟨rfl, rfl⟩ | ⟨hne, hk'⟩
+    · have := hI.mC _ _ h1; simp [hpc] at this ⊢; exact this
+    · exact hI.mC _ _ hk'
+  · simpa using hI.mCl
+  · exact hI.pa
+  · exact hI.ca
+  · exact hI.live
+  · exact hI.dead
+  · exact hI.fifo
+  · exact hI.bP
+  · intro k x hk
+    rcases getElem?_set_cases hk with ⟨rfl, rfl⟩ | ⟨hne, hk'⟩
+    · have := hI.bC _ _ h1; simp [h2] at this ⊢; omega
+    · exact hI.bC _ _ hk'
+  · exact hI.nb
+
+theorem inv_cEnter {p : Params} {s s' : State} {j : Nat} (hI : Inv p s)
+    (h : step p s (.cEnter j) = some s') : Inv p s' := by
+  obtain ⟨c, h1, hpc, hl, rfl⟩ := step_cEnter h
+  have e1 := lsum_set cPre _ _ _ { c with pc := .inSlot } h1
+  have e2 := lsum_set cDone _ _ _ { c with pc := .inSlot } h1
+  have e3 := lsum_set cK _ _ _ { c with pc := .inSlot } h1
+  have e4 := le_lsum cPre _ _ _ h1
+  simp [cPre, cDone, cK, wPre, wDone, hpc] at e1 e2 e3 e4
+  have hRW := hI.fifo.length_le
+  have ht1 := hI.t1
+  have ht2 := hI.t2
+  constructor <;> dsimp only
+  · exact hI.lenP
+  · simpa using hI.lenC
+  · exact hI.lenS
+  · omega
+  · omega
+  · exact hI.wK
+  · have := hI.rK; omega
+  · exact hI.mP
+  · exact hI.mPl
+  · intro k x hk
+    rcases getElem?_set_cases hk with ⟨rfl, rfl⟩ | ⟨hne, hk'⟩
+    · simp
+    · have := hI.mC _ _ hk'
+      rw [hl] at this
+      simp at this
+      simp [this]; omega
+  · intro k hk
+    simp at hk; subst hk
+    have := (List.getElem?_eq_some_iff.mp h1).1
+    simpa using this
+  · exact hI.pa
+  · exact hI.ca
+  · exact hI.live
+  · exact hI.dead
+  · exact hI.fifo
+  · exact hI.bP
+  · intro k x hk
+    rcases getElem?_set_cases hk with ⟨rfl, rfl⟩ | ⟨hne, hk'⟩
+    · have := hI.bC _ _ h1; simp [hpc] at this ⊢; omega
+    · exact hI.bC _ _ hk'
+  · have hd := hI.live s.reads.length (Nat.le_refl _) (by omega)
+    rw [← hI.ca] at hd
+    have hw : s.writes[s.reads.length]? = some s.writes[s.reads.length] := List.getElem?_eq_getElem (by omega)
+    rw [hw] at hd
+    have hb := hI.nb
+    simp only [hb, Bool.false_or, Bool.or_eq_false_iff, decide_eq_false_iff_not]
+    refine ⟨by simp [hd], ?_⟩
+    rintro ⟨hs, hcp⟩
+    obtain ⟨i, hi⟩ := Option.isSome_iff_exists.mp hs
+    have hil := hI.mPl i hi
+    have hpi : s.prods[i]? = some s.prods[i] := List.getElem?_eq_getElem hil
+    have hin := (hI.mP i _ hpi).mpr hi
+    have e5 := le_lsum pPre _ _ _ hpi
+    simp [pPre, wPre, hin] at e5
+    rw [hI.pa, hI.ca] at hcp
+    exact mod_ne_of_lt _ _ _ (by omega) (by omega) hcp.symm
+
+theorem inv_cLeave {p : Params} {s s' : State} {j : Nat} (hc : 1 ≤ p.cap) (hI : Inv p s)
+    (h : step p s (.cLeave j) = some s') : Inv p s' := by
+  obtain ⟨c, h1, hpc, hl, rfl⟩ := step_cLeave h
+  generalize hit : (s.slots.getD s.consumeAt none).getD (0, 0) = it
+  have e1 := lsum_set cPre _ _ _ { c with pc := .done, got := c.got ++ [it] } h1
+  have e2 := lsum_set cDone _ _ _ { c with pc := .done, got := c.got ++ [it] } h1
+  have e3 := lsum_set cK _ _ _ { c with pc := .done, got := c.got ++ [it] } h1
+  have e4 := le_lsum cPre _ _ _ h1
+  simp [cPre, cDone, cK, wPre, wDone, hpc] at e1 e2 e3 e4
+  have hRW := hI.fifo.length_le
+  have ht1 := hI.t1
+  have ht2 := hI.t2
+  have hplt : s.reads.length % p.cap < s.slots.length := by rw [hI.lenS]; exact Nat.mod_lt _ (by omega)
+  have hd := hI.live s.reads.length (Nat.le_refl _) (by omega)
+  rw [← hI.ca] at hd
+  obtain ⟨w, hw⟩ : ∃ w, s.writes[s.reads.length]? = some w :=
+    ⟨_, List.getElem?_eq_getElem (show s.reads.length < s.writes.length by omega)⟩
+  rw [hw] at hd
+  have hit' : it = w := by rw [← hit]; simp [hd]
+  constructor <;> dsimp only
+  · exact hI.lenP
+  · simpa using hI.lenC
+  · simpa using hI.lenS
+  · omega
+  · simp; omega
+  · exact hI.wK
+  · have := hI.rK; simp; omega
+  · exact hI.mP
+  · exact hI.mPl
+  · intro k x hk
+    rcases getElem?_set_cases hk with ⟨rfl, rfl⟩ | ⟨hne, hk'⟩
+    · simp
+    · have := hI.mC _ _ hk'
+      rw [hl] at this
+      simp at this
+      simp [this]; omega
+  · intro k hk
+    simp at hk
+  · exact hI.pa
+  · rw [hI.ca, succ_mod_wrap _ _ hc]; simp
+  · intro m hm1 hm2
+    simp only [List.length_append, List.length_singleton] at hm1
+    rw [hI.ca]
+    rw [List.getElem?_set_ne (mod_ne_of_lt _ _ _ (by omega) (by omega))]
+    exact hI.live m (by omega) hm2
+  · intro m hm1 hm2
+    simp only [List.length_append, List.length_singleton] at hm2
+    rw [hI.ca]
+    by_cases hmw : m = s.reads.length + p.cap
+    · subst hmw
+      rw [Nat.add_mod_right, List.getElem?_set_self hplt]
+    · rw [List.getElem?_set_ne (mod_ne_of_lt _ _ _ (by omega) (by omega))]
+      exact hI.dead m hm1 (by omega)
+  · rw [hit']
+    have hp := List.prefix_iff_eq_take.mp hI.fifo
+    have : s.reads ++ [w] = s.writes.take (s.reads.length + 1) := by
+      rw [List.take_add_one, hw, ← hp]; rfl
+    rw [this]
+    exact List.take_prefix _ _
+  · exact hI.bP
+  · intro k x hk
+    rcases getElem?_set_cases hk with ⟨rfl, rfl⟩ | ⟨hne, hk'⟩
+    · have := hI.bC _ _ h1; simp [hpc] at this ⊢; omega
+    · exact hI.bC _ _ hk'
+  · exact hI.nb
+
+theorem inv_cPost {p : Params} {s s' : State} {j : Nat} (hI : Inv p s)
+    (h : step p s (.cPost j) = some s') : Inv p s' := by
+  obtain ⟨c, h1, hpc, rfl⟩ := step_cPost h
+  have e1 := lsum_set cPre _ _ _ { c with pc := .idle, taken := c.taken + 1 } h1
+  have e2 := lsum_set cDone _ _ _ { c with pc := .idle, taken := c.taken + 1 } h1
+  have e3 := lsum_set cK _ _ _ { c with pc := .idle, taken := c.taken + 1 } h1
+  simp [cPre, cDone, cK, wPre, wDone, hpc] at e1 e2 e3
+  have ht1 := hI.t1
+  have ht2 := hI.t2
+  constructor <;> dsimp only
+  · exact hI.lenP
+  · simpa using hI.lenC
+  · exact hI.lenS
+  · omega
+  · omega
+  · exact hI.wK
+  · have := hI.rK; omega
+  · exact hI.mP
+  · exact hI.mPl
+  · intro k x hk
+    rcases getElem?_set_cases hk with ⟨rfl, rfl⟩ | ⟨hne, hk'⟩
+    · have := hI.mC _ _ h1; simp [hpc] at this ⊢; exact this
+    · exact hI.mC _ _ hk'
+  · simpa using hI.mCl
+  · exact hI.pa
+  · exact hI.ca
+  · exact hI.live
+  · exact hI.dead
+  · exact hI.fifo
+  · exact hI.bP
+  · intro k x hk
+    rcases getElem?_set_cases hk with ⟨rfl, rfl⟩ | ⟨hne, hk'⟩
+    · have := hI.bC _ _ h1; simp [hpc] at this ⊢; omega
+    · exact hI.bC _ _ hk'
+  · exact hI.nb
+
+theorem inv_step {p : Params} {s s' : State} {l : Label} (hc : 1 ≤ p.cap) (hI : Inv p s)
+    (h : step p s l = some s') : Inv p s' := by
+  cases l with
+  | pWait i => exact inv_pWait hI h
+  | pEnter i => exact inv_pEnter hI h
+  | pLeave i => exact inv_pLeave hc hI h
+  | pPost i => exact inv_pPost hI h
+  | cWait j => exact inv_cWait hI h
+  | cEnter j => exact inv_cEnter hI h
+  | cLeave j => exact inv_cLeave hc hI h
+  | cPost j => exact inv_cPost hI h
+
+theorem inv_of_reachable {p : Params} (hc : 1 ≤ p.cap) {s : State} (hr : Reachable p s) : Inv p s := by
+  induction hr with
+  | init => exact inv_init p
+  | step _ hs ih => exact inv_step hc ih hs
+
+/-! ### no deadlock -/
+theorem totalItems_eq (p : Params) : totalItems p = lsum List.length p.items := by
+  rw [lsum_eq_map_sum]; rfl
+
+theorem totalQuota_eq (p : Params) : totalQuota p = lsum id p.quotas := by
+  rw [lsum_eq_map_sum]; simp [totalQuota]
+
+theorem enabled_pLeave {p : Params} {s : State} (hI : Inv p s) {k : Nat} (hl : s.pLock = some k) :
+    ∃ l s', step p s l = some s' := by
+  have hk := hI.mPl k hl
+  have hpk : s.prods[k]? = some s.prods[k] := List.getElem?_eq_getElem hk
+  have hin := (hI.mP k _ hpk).mpr hl
+  have hik : p.items[k]? = some (p.items[k]'(by rw [← hI.lenP]; exact hk)) := List.getElem?_eq_getElem _
+  exact ⟨.pLeave k, _, by simp only [step, hpk, hik, hin, hl, and_self, if_true]; rfl⟩
+
+theorem enabled_cLeave {p : Params} {s : State} (hI : Inv p s) {k : Nat} (hl : s.cLock = some k) :
+    ∃ l s', step p s l = some s' := by
+  have hk := hI.mCl k hl
+  have hck : s.cons[k]? = some s.cons[k] := List.getElem?_eq_getElem hk
+  have hin := (hI.mC k _ hck).mpr hl
+  exact ⟨.cLeave k, _, by simp only [step, hck, hin, hl, and_self, if_true]; rfl⟩
+
+theorem enabled_of_prod_busy {p : Params} {s : State} (hI : Inv p s) {i : Nat} {pr : Prod}
+    (h1 : s.prods[i]? = some pr) (hpc : pr.pc ≠ .idle) : ∃ l s', step p s l = some s' := by
+  cases hp : pr.pc with
+  | idle => exact absurd hp hpc
+  | waited =>
+    cases hl : s.pLock with
+    | none => exact ⟨.pEnter i, _, by simp only [step, h1, hp, hl, and_self, if_true]; rfl⟩
+    | some k => exact enabled_pLeave hI hl
+  | inSlot => exact enabled_pLeave hI ((hI.mP i pr h1).mp hp)
+  | done => exact ⟨.pPost i, _, by simp only [step, h1, hp, if_true]; rfl⟩
+
+theorem enabled_of_cons_busy {p : Params} {s : State} (hI : Inv p s) {j : Nat} {c : Cons}
+    (h1 : s.cons[j]? = some c) (hpc : c.pc ≠ .idle) : ∃ l s', step p s l = some s' := by
+  cases hp : c.pc with
+  | idle => exact absurd hp hpc
+  | waited =>
+    cases hl : s.cLock with
+    | none => exact ⟨.cEnter j, _, by simp only [step, h1, hp, hl, and_self, if_true]; rfl⟩
+    | some k => exact enabled_cLeave hI hl
+  | inSlot => exact enabled_cLeave hI ((hI.mC j c h1).mp hp)
+  | done => exact ⟨.cPost j, _, by simp only [step, h1, hp, if_true]; rfl⟩
+
+/-- facts about a quiescent state (all threads idle) -/
+theorem quiescent_facts {p : Params} {s : State} (hI : Inv p s)
+    (hP : ∀ (i : Nat) pr, s.prods[i]? = some pr → pr.pc = .idle)
+    (hC : ∀ (j : Nat) c, s.cons[j]? = some c → c.pc = .idle) :
+    s.empty + s.used = p.cap ∧ s.writes.length = s.reads.length + s.used ∧
+    s.writes.length = lsum (·.next) s.prods ∧ s.reads.length = lsum (·.taken) s.cons := by
+  have z1 : lsum pPre s.prods = 0 := lsum_eq_zero _ _ (fun i a h => by simp [pPre, wPre, hP i a h])
+  have z2 : lsum pDone s.prods = 0 := lsum_eq_zero _ _ (fun i a h => by simp [pDone, wDone, hP i a h])
+  have z3 : lsum cPre s.cons = 0 := lsum_eq_zero _ _ (fun i a h => by simp [cPre, wPre, hC i a h])
+  have z4 : lsum cDone s.cons = 0 := lsum_eq_zero _ _ (fun i a h => by simp [cDone, wDone, hC i a h])
+  have k1 : lsum pK s.prods = lsum (·.next) s.prods := by
+    apply Nat.le_antisymm
+    · exact lsum_le_lsum _ _ _ _ rfl (fun i a b ha hb => by
+        rw [ha] at hb; cases hb; simp [pK, wDone, hP i a ha])
+    · exact lsum_le_lsum _ _ _ _ rfl (fun i a b ha hb => by
+        rw [ha] at hb; cases hb; simp [pK])
+  have k2 : lsum cK s.cons = lsum (·.taken) s.cons := by
+    apply Nat.le_antisymm
+    · exact lsum_le_lsum _ _ _ _ rfl (fun i a b ha hb => by
+        rw [ha] at hb; cases hb; simp [cK, wDone, hC i a ha])
+    · exact lsum_le_lsum _ _ _ _ rfl (fun i a b ha hb => by
+        rw [ha] at hb; cases hb; simp [cK])
+  have := hI.t1; have := hI.t2; have := hI.wK; have := hI.rK
+  refine ⟨by omega, by omega, by omega, by omega⟩
+
+theorem next_le_total {p : Params} {s : State} (hI : Inv p s) : lsum (·.next) s.prods ≤ totalItems p := by
+  rw [totalItems_eq]
+  exact lsum_le_lsum _ _ _ _ hI.lenP (fun i a b ha hb => by
+    have := (hI.bP i a ha).1
+    simpa [hb] using this)
+
+theorem taken_le_total {p : Params} {s : State} (hI : Inv p s) : lsum (·.taken) s.cons ≤ totalQuota p := by
+  rw [totalQuota_eq]
+  exact lsum_le_lsum _ _ _ _ hI.lenC (fun i a b ha hb => by
+    have := (hI.bC i a ha).1
+    simpa [hb] using this)
+
+theorem no_deadlock {p : Params} {s : State} (hc : 1 ≤ p.cap) (hq : totalItems p = totalQuota p) (hI : Inv p s) :
+    Final p s ∨ ∃ l s', step p s l = some s' := by
+  by_cases hP : ∀ (i : Nat) pr, s.prods[i]? = some pr → pr.pc = .idle
+  case neg =>
+    right
+    apply Classical.byContradiction
+    intro hn
+    exact hP (fun i pr h => Classical.byContradiction (fun hne => hn (enabled_of_prod_busy hI h hne)))
+  by_cases hC : ∀ (j : Nat) c, s.cons[j]? = some c → c.pc = .idle
+  case neg =>
+    right
+    apply Classical.byContradiction
+    intro hn
+    exact hC (fun i pr h => Classical.byContradiction (fun hne => hn (enabled_of_cons_busy hI h hne)))
+  obtain ⟨q1, q2, q3, q4⟩ := quiescent_facts hI hP hC
+  have b1 := next_le_total hI
+  have b2 := taken_le_total hI
+  by_cases hu : 0 < s.used
+  · right
+    have hlt : lsum (·.taken) s.cons < lsum id p.quotas := by rw [← totalQuota_eq]; omega
+    obtain ⟨j, c, q, hj, hqj, hcq⟩ := exists_lt_of_lsum_lt _ _ _ _ hI.lenC hlt
+    have hcq' : c.taken < q := hcq
+    exact ⟨.cWait j, _, by simp only [step, hj, hqj, hC j c hj, hcq', hu, and_self, if_true]; rfl⟩
+  · by_cases hw : s.writes.length < totalItems p
+    · right
+      have hlt : lsum (·.next) s.prods < lsum List.length p.items := by rw [← totalItems_eq]; omega
+      obtain ⟨i, pr, its, hi, hii, hlt'⟩ := exists_lt_of_lsum_lt _ _ _ _ hI.lenP hlt
+      have hlt'' : pr.next < its.length := hlt'
+      have he : 0 < s.empty := by omega
+      exact ⟨.pWait i, _, by simp only [step, hi, hii, hP i pr hi, hlt'', he, and_self, if_true]; rfl⟩
+    · left
+      have e1 : lsum (·.next) s.prods = lsum List.length p.items := by rw [← totalItems_eq]; omega
+      have e2 : lsum (·.taken) s.cons = lsum id p.quotas := by rw [← totalQuota_eq]; omega
+      constructor
+      · intro i pr hi
+        refine ⟨hP i pr hi, ?_⟩
+        have hil : i < p.items.length := by rw [← hI.lenP]; exact (List.getElem?_eq_some_iff.mp hi).1
+        have hii : p.items[i]? = some p.items[i] := List.getElem?_eq_getElem hil
+        have := eq_of_lsum_eq _ _ _ _ hI.lenP (fun i a b ha hb => by
+          have := (hI.bP i a ha).1
+          simpa [hb] using this) e1 i pr _ hi hii
+        simpa [hii] using this
+      · intro j c hj
+        refine ⟨hC j c hj, ?_⟩
+        have hjl : j < p.quotas.length := by rw [← hI.lenC]; exact (List.getElem?_eq_some_iff.mp hj).1
+        have hjj : p.quotas[j]? = some p.quotas[j] := List.getElem?_eq_getElem hjl
+        have := eq_of_lsum_eq _ _ _ _ hI.lenC (fun i a b ha hb => by
+          have := (hI.bC i a ha).1
+          simpa [hb] using this) e2 j c _ hj hjj
+        simpa [hjj] using this
+
+/-! ### exactly once -/
+/-- ghost: what the producers have written so far, grouped by producer -/
+def wrote : List Prod → List (List Item) → List Item
+  | pr :: ps, its :: is => its.take (pK pr) ++ wrote ps is
+  | [], _ => []
+  | _ :: _, [] => []
+
+theorem wrote_set_same : ∀ (ps : List Prod) (is : List (List Item)) (i : Nat) (pr pr' : Prod),
+    ps[i]? = some pr → pK pr' = pK pr → wrote (ps.set i pr') is = wrote ps is
+  | [], _, _, _, _, h, _ => by simp at h
+  | x :: ps, [], _, _, _, _, _ => by cases ‹Nat› <;> simp [wrote]
+  | x :: ps, y :: is, 0, pr, pr', h, hk => by
+    simp at h; subst h; simp [wrote, hk]
+  | x :: ps, y :: is, i + 1, pr, pr', h, hk => by
+    simp at h
+    simp [wrote, wrote_set_same ps is i pr pr' h hk]
+
+theorem wrote_set_succ : ∀ (ps : List Prod) (is : List (List Item)) (i : Nat) (pr pr' : Prod) (its : List Item),
+    ps[i]? = some pr → is[i]? = some its → pK pr' = pK pr + 1 → pK pr < its.length →
+    (wrote (ps.set i pr') is).Perm (wrote ps is ++ [its.getD (pK pr) (0, 0)])
+  | [], _, _, _, _, _, h, _, _, _ => by simp at h
+  | x :: ps, [], _, _, _, _, _, h, _, _ => by simp at h
+  | x :: ps, y :: is, 0, pr, pr', its, h, h2, hk, hlt => by
+    simp at h h2; subst h; subst h2
+    simp only [List.set_cons_zero, wrote, hk]
+    rw [List.take_add_one, List.getElem?_eq_getElem hlt]
+    simp only [Option.toList_some, List.getD_eq_getElem?_getD, List.getElem?_eq_getElem hlt, Option.getD_some,
+      List.append_assoc]
+    exact List.Perm.append_left _ List.perm_append_comm
+  | x :: ps, y :: is, i + 1, pr, pr', its, h, h2, hk, hlt => by
+    simp at h h2
+    simp only [List.set_cons_succ, wrote, List.append_assoc]
+    exact List.Perm.append_left _ (wrote_set_succ ps is i pr pr' its h h2 hk hlt)
+
+theorem wrote_full : ∀ (ps : List Prod) (is : List (List Item)), ps.length = is.length →
+    (∀ (i : Nat) pr its, ps[i]? = some pr → is[i]? = some its → pK pr = its.length) → wrote ps is = is.flatten
+  | [], [], _, _ => rfl
+  | [], _ :: _, h, _ => by simp at h
+  | _ :: _, [], h, _ => by simp at h
+  | x :: ps, y :: is, hl, h => by
+    have h0 := h 0 x y (by simp) (by simp)
+    have := wrote_full ps is (by simpa using hl) (fun i pr its h1 h2 => h (i + 1) pr its (by simpa using h1) (by simpa using h2))
+    simp [wrote, h0, this]
+
+theorem map_set_same {α β : Type} (f : α → β) : ∀ (l : List α) (i : Nat) (a b : α), l[i]? = some a → f b = f a →
+    (l.set i b).map f = l.map f
+  | [], _, _, _, h, _ => by simp at h
+  | x :: l, 0, a, b, h, hf => by simp at h; subst h; simp [hf]
+  | x :: l, i + 1, a, b, h, hf => by
+    simp at h
+    simp [map_set_same f l i a b h hf]
+
+theorem flatten_map_set_perm {α β : Type} (f : α → List β) : ∀ (l : List α) (i : Nat) (a b : α) (x : β), l[i]? = some a →
+    f b = f a ++ [x] → ((l.set i b).map f).flatten.Perm ((l.map f).flatten ++ [x])
+  | [], _, _, _, _, h, _ => by simp at h
+  | y :: l, 0, a, b, x, h, hf => by
+    simp at h; subst h
+    simp only [List.set_cons_zero, List.map_cons, List.flatten_cons, hf, List.append_assoc]
+    exact List.Perm.append_left _ List.perm_append_comm
+  | y :: l, i + 1, a, b, x, h, hf => by
+    simp at h
+    simp only [List.set_cons_succ, List.map_cons, List.flatten_cons, List.append_assoc]
+    exact List.Perm.append_left _ (flatten_map_set_perm f l i a b x h hf)
+
+structure Inv2 (p : Params) (s : State) : Prop where
+  pw : s.writes.Perm (wrote s.prods p.items)
+  pr : (s.cons.map (·.got)).flatten.Perm s.reads
+
+theorem inv2_init (p : Params) : Inv2 p (init p) := by
+  have z : ∀ (l : List (List Item)), wrote (l.map (fun _ => (⟨.idle, 0⟩ : Prod))) l = [] := by
+    intro l; induction l with
+    | nil => rfl
+    | cons a l ih => simp [wrote, ih, pK, wDone]
+  constructor
+  · simp [init, z]
+  · simp [init]
+
+theorem inv2_step {p : Params} {s s' : State} {l : Label} (hI : Inv p s) (h2 : Inv2 p s)
+    (h : step p s l = some s') : Inv2 p s' := by
+  cases l with
+  | pWait i =>
+    obtain ⟨pr, its, h1, hi, hpc, hn, he, rfl⟩ := step_pWait h
+    exact ⟨by dsimp only; rw [wrote_set_same _ _ _ _ _ h1 (by simp [pK, wDone, hpc])]; exact h2.pw, h2.pr⟩
+  | pEnter i =>
+    obtain ⟨pr, h1, hpc, hl, rfl⟩ := step_pEnter h
+    exact ⟨by dsimp only; rw [wrote_set_same _ _ _ _ _ h1 (by simp [pK, wDone, hpc])]; exact h2.pw, h2.pr⟩
+  | pLeave i =>
+    obtain ⟨pr, its, h1, hi, hpc, hl, rfl⟩ := step_pLeave h
+    refine ⟨?_, h2.pr⟩
+    dsimp only
+    have hb := (hI.bP i pr h1).2 (by simp [hpc])
+    simp only [List.getD_eq_getElem?_getD, hi, Option.getD_some] at hb
+    have hk : pK pr = pr.next := by simp [pK, wDone, hpc]
+    have := wrote_set_succ s.prods p.items i pr { pr with pc := .done } its h1 hi (by simp [pK, wDone, hpc]) (by omega)
+    rw [hk] at this
+    exact (List.Perm.append_right _ h2.pw).trans this.symm
+  | pPost i =>
+    obtain ⟨pr, h1, hpc, rfl⟩ := step_pPost h
+    exact ⟨by dsimp only; rw [wrote_set_same _ _ _ _ _ h1 (by simp [pK, wDone, hpc])]; exact h2.pw, h2.pr⟩
+  | cWait j =>
+    obtain ⟨c, q, h1, hj, hpc, hn, he, rfl⟩ := step_cWait h
+    exact ⟨h2.pw, by dsimp only; rw [map_set_same (·.got) _ _ c { c with pc := .waited } h1 rfl]; exact h2.pr⟩
+  | cEnter j =>
+    obtain ⟨c, h1, hpc, hl, rfl⟩ := step_cEnter h
+    exact ⟨h2.pw, by dsimp only; rw [map_set_same (·.got) _ _ c { c with pc := .inSlot } h1 rfl]; exact h2.pr⟩
+  | cLeave j =>
+    obtain ⟨c, h1, hpc, hl, rfl⟩ := step_cLeave h
+    refine ⟨h2.pw, ?_⟩
+    dsimp only
+    generalize (s.slots.getD s.consumeAt none).getD (0, 0) = it
+    exact (flatten_map_set_perm (·.got) _ _ c { c with pc := .done, got := c.got ++ [it] } it h1 rfl).trans
+      (List.Perm.append_right _ h2.pr)
+  | cPost j =>
+    obtain ⟨c, h1, hpc, rfl⟩ := step_cPost h
+    exact ⟨h2.pw, by dsimp only; rw [map_set_same (·.got) _ _ c { c with pc := .idle, taken := c.taken + 1 } h1 rfl]; exact h2.pr⟩
+
+theorem inv2_of_reachable {p : Params} (hc : 1 ≤ p.cap) {s : State} (hr : Reachable p s) : Inv2 p s := by
+  induction hr with
+  | init => exact inv2_init p
+  | step hr' hs ih => exact inv2_step (inv_of_reachable hc hr') ih hs
+
+theorem exactly_once {p : Params} {s : State} (hq : totalItems p = totalQuota p) (hI : Inv p s) (h2 : Inv2 p s)
+    (hf : Final p s) :
+    s.reads = s.writes ∧ s.writes.Perm p.items.flatten ∧ (s.cons.map (·.got)).flatten.Perm p.items.flatten := by
+  obtain ⟨q1, q2, q3, q4⟩ := quiescent_facts hI (fun i pr h => (hf.1 i pr h).1) (fun j c h => (hf.2 j c h).1)
+  have e1 : lsum (·.next) s.prods = totalItems p := by
+    rw [totalItems_eq]
+    apply Nat.le_antisymm
+    · exact lsum_le_lsum _ _ _ _ hI.lenP (fun i a b ha hb => by
+        have := (hf.1 i a ha).2; simp [hb] at this; simp [this])
+    · exact lsum_le_lsum _ _ _ _ hI.lenP.symm (fun i b a hb ha => by
+        have := (hf.1 i a ha).2; simp [hb] at this; simp [this])
+  have e2 : lsum (·.taken) s.cons = totalQuota p := by
+    rw [totalQuota_eq]
+    apply Nat.le_antisymm
+    · exact lsum_le_lsum _ _ _ _ hI.lenC (fun i a b ha hb => by
+        have := (hf.2 i a ha).2; simp [hb] at this; simp [this])
+    · exact lsum_le_lsum _ _ _ _ hI.lenC.symm (fun i b a hb ha => by
+        have := (hf.2 i a ha).2; simp [hb] at this; simp [this])
+  have hrw : s.reads = s.writes := hI.fifo.eq_of_length (by omega)
+  have hfull : wrote s.prods p.items = p.items.flatten :=
+    wrote_full _ _ hI.lenP (fun i pr its h1 hi => by
+      have := hf.1 i pr h1
+      simp [hi] at this
+      simp [pK, wDone, this.1, this.2])
+  have hw : s.writes.Perm p.items.flatten := hfull ▸ h2.pw
+  exact ⟨hrw, hw, (hrw ▸ h2.pr).trans hw⟩
+
+/-! ### per-producer order -/
+/-- number of items producer `i` has written -/
+def kAt (ps : List Prod) (i : Nat) : Nat := (ps[i]?.map pK).getD 0
+
+theorem kAt_set {ps : List Prod} {i' : Nat} {pr : Prod} (pr' : Prod) (h : ps[i']? = some pr) (i : Nat) :
+    kAt (ps.set i' pr') i = if i = i' then pK pr' else kAt ps i := by
+  unfold kAt
+  split
+  · next e =>
+    subst e
+    rw [List.getElem?_set_self (List.getElem?_eq_some_iff.mp h).1]; rfl
+  · next e =>
+    rw [List.getElem?_set_ne (fun e' => e e'.symm)]
+
+theorem kAt_set_same {ps : List Prod} {i' : Nat} {pr : Prod} (pr' : Prod) (h : ps[i']? = some pr) (hk : pK pr' = pK pr)
+    (i : Nat) : kAt (ps.set i' pr') i = kAt ps i := by
+  rw [kAt_set pr' h]
+  split
+  · next e => subst e; simp [kAt, h, hk]
+  · rfl
+
+structure Inv3 (p : Params) (s : State) : Prop where
+  ord : ∀ i, s.writes.filter (fun it => it.1 == i) = (p.items.getD i []).take (kAt s.prods i)
+  sub : ∀ (j : Nat) c, s.cons[j]? = some c → c.got.Sublist s.reads
+
+theorem inv3_init (p : Params) : Inv3 p (init p) := by
+  constructor
+  · intro i
+    have : kAt (init p).prods i = 0 := by
+      simp only [kAt, init, List.getElem?_map]
+      cases p.items[i]? <;> simp [pK, wDone]
+    rw [this]; simp [init]
+  · intro j c h
+    simp only [init, List.getElem?_map] at h
+    cases hq : p.quotas[j]? <;> simp [hq] at h
+    subst h; simp [init]
+
+theorem sub_set_same {cs : List Cons} {rs : List Item} (hs : ∀ (j : Nat) c, cs[j]? = some c → c.got.Sublist rs)
+    {j : Nat} {c c' : Cons} (h1 : cs[j]? = some c) (hg : c'.got = c.got) :
+    ∀ (k : Nat) x, (cs.set j c')[k]? = some x → x.got.Sublist rs := by
+  intro k x hk
+  rcases getElem?_set_cases hk with ⟨rfl, rfl⟩ | ⟨_, hk'⟩
+  · rw [hg]; exact hs _ _ h1
+  · exact hs _ _ hk'
+
+theorem inv3_step {p : Params} {s s' : State} {l : Label}
+    (hid : ∀ (i : Nat) (its : List Item), p.items[i]? = some its → ∀ it ∈ its, it.1 = i)
+    (hI : Inv p s) (h3 : Inv3 p s) (h : step p s l = some s') : Inv3 p s' := by
+  cases l with
+  | pWait i =>
+    obtain ⟨pr, its, h1, hi, hpc, hn, he, rfl⟩ := step_pWait h
+    exact ⟨fun k => by dsimp only; rw [kAt_set_same _ h1 (by simp [pK, wDone, hpc])]; exact h3.ord k, h3.sub⟩
+  | pEnter i =>
+    obtain ⟨pr, h1, hpc, hl, rfl⟩ := step_pEnter h
+    exact ⟨fun k => by dsimp only; rw [kAt_set_same _ h1 (by simp [pK, wDone, hpc])]; exact h3.ord k, h3.sub⟩
+  | pLeave i =>
+    obtain ⟨pr, its, h1, hi, hpc, hl, rfl⟩ := step_pLeave h
+    refine ⟨?_, h3.sub⟩
+    intro k
+    dsimp only
+    have hb := (hI.bP i pr h1).2 (by simp [hpc])
+    simp only [List.getD_eq_getElem?_getD, hi, Option.getD_some] at hb
+    have hget : its.getD pr.next (0, 0) = its[pr.next] := by simp [hb]
+    have htag : (its[pr.next]).1 = i := hid i its hi _ (List.getElem_mem hb)
+    rw [hget, List.filter_append, h3.ord k, kAt_set _ h1]
+    by_cases hk : k = i
+    · subst hk
+      have hkat : kAt s.prods k = pr.next := by simp [kAt, h1, pK, wDone, hpc]
+      simp only [if_true, hkat, pK, wDone, List.getD_eq_getElem?_getD, hi, Option.getD_some]
+      rw [List.take_add_one, List.getElem?_eq_getElem hb]
+      simp [htag]
+    · have : (its[pr.next].1 == k) = false := by simp [htag]; omega
+      simp [hk, this]
+  | pPost i =>
+    obtain ⟨pr, h1, hpc, rfl⟩ := step_pPost h
+    exact ⟨fun k => by dsimp only; rw [kAt_set_same _ h1 (by simp [pK, wDone, hpc])]; exact h3.ord k, h3.sub⟩
+  | cWait j =>
+    obtain ⟨c, q, h1, hj, hpc, hn, he, rfl⟩ := step_cWait h
+    exact ⟨h3.ord, sub_set_same h3.sub h1 rfl⟩
+  | cEnter j =>
+    obtain ⟨c, h1, hpc, hl, rfl⟩ := step_cEnter h
+    exact ⟨h3.ord, sub_set_same h3.sub h1 rfl⟩
+  | cLeave j =>
+    obtain ⟨c, h1, hpc, hl, rfl⟩ := step_cLeave h
+    refine ⟨h3.ord, ?_⟩
+    dsimp only
+    intro k x hk
+    rcases getElem?_set_cases hk with ⟨rfl, rfl⟩ | ⟨_, hk'⟩
+    · exact List.Sublist.append (h3.sub _ _ h1) (List.Sublist.refl _)
+    · exact (h3.sub _ _ hk').trans (List.sublist_append_left _ _)
+  | cPost j =>
+    obtain ⟨c, h1, hpc, rfl⟩ := step_cPost h
+    exact ⟨h3.ord, sub_set_same h3.sub h1 rfl⟩
+
+theorem inv3_of_reachable {p : Params} (hc : 1 ≤ p.cap)
+    (hid : ∀ (i : Nat) (its : List Item), p.items[i]? = some its → ∀ it ∈ its, it.1 = i)
+    {s : State} (hr : Reachable p s) : Inv3 p s := by
+  induction hr with
+  | init => exact inv3_init p
+  | step hr' hs ih => exact inv3_step hid (inv_of_reachable hc hr') ih hs
+
 end PV.Lemmas.Queues.PCQ
